@@ -1,4 +1,4 @@
 CONSTANTS N = 5
 SPECIFICATION Spec
-INVARIANTS InvMatHom InvProbe InvDual InvAngleAxis InvEuler3 InvEuler2 InvEuler1 InvEulerQuat
+INVARIANTS InvMatHom InvProbe InvDual InvAngleAxis InvEuler3 InvEuler2 InvEuler1 InvEulerQuat InvTwinsQuat InvTwinsEuler
 CHECK_DEADLOCK FALSE
